@@ -4,7 +4,7 @@ Tie: random fibres x random non-overlapping WDM combs are driven through the rea
   (a) Fiber.__call__ with NliSolver.compute_nli wrapped (captures the NLI vector really added to the spectrum), and
   (b) NliSolver.compute_nli called directly (also with unsorted duck-typed spectra),
 and through the Gallina model `Verif.Model.GN.fiber_nli` instantiated at NumF (binary64; Gallina exp/ln/asinh) and
-evaluated by vm_compute; per-channel NLI compared with relative tolerance 1e-7.  The same Gallina term instantiated
+evaluated by vm_compute; per-channel NLI compared with relative tolerance 1e-9.  The same Gallina term instantiated
 at NumR (Coq reals) is what Props/C03.v proves the scaling laws about.
 Oracle (on the implementation's own results): non-negativity, x k power -> x k^3 NLI, adding a channel / raising a
 power never lowers any channel's NLI, supplying the channels in another order gives the same per-channel NLI.
@@ -18,7 +18,7 @@ from types import SimpleNamespace as NS
 from . import common
 from .common import listlit, zlit
 
-TOL = 1e-7
+TOL = 1e-9
 
 
 # ------------------------------------------------------------------ literals / parsing
@@ -463,7 +463,7 @@ def run(ctx):
     ctx.extra['max_rel_deviation_model_vs_gnpy'] = worst_dev[0]
     ctx.assumptions += [
         'NumF (binary64 with Gallina exp/ln/asinh/10^x/log10) approximates NumR: not proved; checked against libm on '
-        'random points in every run (max relative error recorded in coverage.numf_selftest) and absorbed by the 1e-7 tolerance',
+        'random points in every run (max relative error recorded in coverage.numf_selftest) and absorbed by the 1e-9 tolerance (measured deviation model vs gnpy <= 3e-13)',
         'Raman effect off (sim_params.raman_params.flag = False); the GGN methods are not covered by C03',
         'table frequencies of per-frequency loss / dispersion are supplied sorted (scipy interp1d would sort them)',
     ]
